@@ -123,6 +123,10 @@ type c14case struct {
 	Parts    int `json:"parts"`
 }
 
+// c14firstKey: Redis 5.0 commands whose first key is not the first argument (the command table's "first key"
+// column). None of them is forwarded by the unchanged proxy; if one ever is, it must be routed by that key.
+var c14firstKey = map[string]int{"bitop": 2, "object": 2, "memory": 2, "xgroup": 2, "xinfo": 2}
+
 func c14body(cs c14case) func() {
 	return func() {
 		cl := cluster.New(2, 2, 2)
@@ -147,6 +151,10 @@ func c14body(cs c14case) func() {
 					args := []string{cased}
 					for a := 0; a < argc; a++ {
 						switch {
+						case c14firstKey[lname] > 0 && a == c14firstKey[lname]-1:
+							args = append(args, key)
+						case c14firstKey[lname] > 0 && a == 0:
+							args = append(args, keys[(ni+argc+1)%2]) // a word that hashes to the other node
 						case lname == "eval" && a == 0:
 							args = append(args, "return 1")
 						case lname == "eval" && a == 1:
@@ -219,6 +227,9 @@ func c14body(cs c14case) func() {
 								}
 								if strings.ToLower(e.Args[0]) == "eval" && len(e.Args) > 3 {
 									k = e.Args[3]
+								}
+								if fk := c14firstKey[strings.ToLower(e.Args[0])]; fk > 0 && len(e.Args) > fk {
+									k = e.Args[fk]
 								}
 								owner := cl.OwnerOfKey(k)
 								node := cl.NodeByAddrID(e.Node)
